@@ -317,11 +317,13 @@ type report struct {
 	Attached string      `json:"returned_conn_attached_to,omitempty"`
 	Links    []string    `json:"clients_that_received_link"`
 	Dials    []dialEvent `json:"dials"`
+	// dials of a second connection to the same hostname (cached routes)
+	SecondDials []dialEvent `json:"second_connection_dials,omitempty"`
 }
 
 func main() {
 	r := ev.Start("C27", "exploration")
-	r.SetRule("complete product of per-slot outcomes {empty, lookup error, local route x {client connected, no-direct, transport error, dead stream}, remote route x {client connected, no-direct, remote dial error, wrong server} through a real remote tun/server (real handleProxyConn), remote route x {node dial error, node dial no-direct, undecodable status, closed without status} through a scripted remote} ^ 3 slots = 14^3 = 2744 route sets, each run through the real DialClient with a fresh hostname; plus seeded cases with a remote that never answers (3 s status deadline). Distinct = outcome vector x same-client flag; non-trivial = at least one slot holds a route.")
+	r.SetRule("complete product of per-slot outcomes {empty, lookup error, local route x {client connected, no-direct, transport error, dead stream}, remote route x {client connected, no-direct, remote dial error, wrong server} through a real remote tun/server (real handleProxyConn), remote route x {node dial error, node dial no-direct, undecodable status, closed without status} through a scripted remote} ^ 3 slots = 14^3 = 2744 route sets, each run through the real DialClient with a fresh hostname, followed (when the first connection succeeded and a route through this node exists) by a second connection to the same hostname whose first attempt must again go through this node; plus seeded cases with a remote that never answers (3 s status deadline). Distinct = outcome vector x same-client flag; non-trivial = at least one slot holds a route.")
 	r.Assume("'recorded in H's routes' is read as the (client, server) pair of a stored route: a client reached through a server that no route of H names counts as not recorded")
 	r.Assume("routes exist, no client reachable: if at least one attempt reported no-direct the outcome must be not-connected (in any order of the failures); when every failure is some other error the statement is not specific (the code falls back to not-found): recorded, not judged")
 	r.Assume("a reachable client of H must actually be reached (DialClient may not fail while some route's client accepts the stream)")
@@ -524,6 +526,24 @@ func runCase(f *fixture, name string, slots [3]outcome, rng *rand.Rand, idx int)
 		}
 		conn.Close()
 	}
+	// a second connection for the same hostname on the same server (the routes are cached by now):
+	// whatever the first one went through, a route through this node is again the first one tried
+	c.mu.Lock()
+	n1log, n1ends := len(c.log), len(c.ends)
+	c.mu.Unlock()
+	hasLocal := false
+	for _, o := range slots {
+		if o.isLocal() {
+			hasLocal = true
+		}
+	}
+	secondDial := conn != nil && nSilent == 0 && hasLocal && incon == ""
+	if secondDial {
+		link2 := &protocol.Link{Alpn: link.GetAlpn(), Hostname: host, Remote: fmt.Sprintf("203.0.113.%d:%d", rng.Intn(250), 1024+rng.Intn(50000))}
+		if conn2, _ := f.A.Server.DialClient(context.Background(), link2); conn2 != nil {
+			conn2.Close()
+		}
+	}
 	// end of case: close every server-side end and join the client ends
 	close(c.stop)
 	c.mu.Lock()
@@ -541,12 +561,25 @@ func runCase(f *fixture, name string, slots [3]outcome, rng *rand.Rand, idx int)
 		}
 	}
 	c.mu.Lock()
-	rep.Dials = append([]dialEvent(nil), c.log...)
+	rep.Dials = append([]dialEvent(nil), c.log[:n1log]...)
+	second := append([]dialEvent(nil), c.log[n1log:]...)
 	c.mu.Unlock()
+	if secondDial {
+		rep.SecondDials = second
+		for _, e := range second {
+			if e.Server != "A" {
+				continue
+			}
+			if e.Transport == "chord" {
+				c.viol("remote-before-local:second-connection", fmt.Sprintf("slots %v: the first connection went %v; for the second connection to the same hostname a route through another node was tried first: %v", rep.Slots, rep.Dials, second))
+			}
+			break
+		}
+	}
 
-	// ---------------- oracle
+	// ---------------- oracle (of the first connection)
 	var linked []*clientEnd
-	for _, e := range ends {
+	for _, e := range ends[:n1ends] {
 		e.mu.Lock()
 		l := e.link
 		e.mu.Unlock()
